@@ -36,7 +36,9 @@ CLAIM = {
 
 # ---- split alphabet: (source text, kind)
 PIECES = [("ab", "lit"), ("\\n", "lit"), ("$$", "dd"), ("${x}", "emb"), ("${ y+1 }", "emb"), ("$", "tail"),
-          ("${", "adv"), ("}", "lit"), ("$z", "adv"), ("{", "lit")]
+          ("${", "adv"), ("}", "lit"), ("$z", "adv"), ("{", "lit"), ("${0x1F}", "emb"), ("${2.50}", "emb")]
+# number literals as the whole embedded expression, in every spelling (split K-diff, lengths <= 2 around them)
+NUM_LITS = ["7", "0x1F", "0X1f", "0o17", "017", "0b101", "1_000", "0x_ff", "2.50", "2.0", "1e3", "0.5", "1e21", "12.0e-1", "1_0.2_5", "0x1p-2", "100."]
 RAW_EXTRA = [('"', "lit"), ("a\nb", "lit")]
 
 
@@ -100,7 +102,9 @@ def canon_impl_split(line):
 # ---- value cases
 LITS_D = ["ab", "\\n", "x\\\\y", "\\\"", "\\x24", "{", "}", " ", "\\t-", "é", "%d", "{}"]
 LITS_R = ["ab", "\\n", "\"", "{", "}", " ", "x\\", "%s"]
-EMBS = [("n", "int"), ("m", "int"), ("n+1", "int"), (" n ", "int"), ("s", "string"), ("s+s", "string"), ("fl", "float"),
+INT_LITS = ["7", "0x1F", "0X1f", "0o17", "017", "0b101", "1_000", "0x_ff"]
+FLOAT_LITS = ["2.50", "2.0", "1e3", "0.5", "1e21", "12.0e-1", "1_0.2_5", "0x1p-2", "100."]
+EMBS = [("LI", "int"), ("LF", "float"), ("n", "int"), ("m", "int"), ("n+1", "int"), (" n ", "int"), ("s", "string"), ("s+s", "string"), ("fl", "float"),
         ("g", "float"), ("er", "error"), ("P", "int"), ("PS", "string"), ("P+m", "int")]
 
 
@@ -115,7 +119,11 @@ def gen_value_case(rng, quote):
             segs.append(["dd"])
         else:
             e, t = rng.choice(EMBS)
-            if "PS" in e:
+            if e == "LI":
+                e = rng.choice(INT_LITS)
+            elif e == "LF":
+                e = rng.choice(FLOAT_LITS)
+            elif "PS" in e:
                 e = e.replace("PS", "ps(%d, s)" % k)
                 k += 1
             elif "P" in e:
@@ -127,7 +135,10 @@ def gen_value_case(rng, quote):
     return {"quote": quote, "segs": segs}
 
 
-FIXED_VALUE_CASES = [
+FIXED_VALUE_CASES = [{"quote": q, "segs": [["lit", "v="], ["emb", l, "int"], ["dd"]]} for l in INT_LITS for q in ("d",)] + \
+    [{"quote": "d", "segs": [["emb", l, "float"]]} for l in FLOAT_LITS] + \
+    [{"quote": "r", "segs": [["emb", "0x1F", "int"], ["emb", "2.50", "float"], ["emb", " 0b11 ", "int"]]},
+     {"quote": "d", "segs": [["emb", "0x10+1", "int"], ["emb", "p(1, 0x1F)", "int"]]}] + [
     {"quote": "d", "segs": [["lit", "a"], ["emb", "n", "int"], ["lit", "b"], ["dd"], ["emb", "s", "string"], ["emb", "fl", "float"], ["emb", "er", "error"], ["tail$"]]},
     {"quote": "d", "segs": [["emb", "p(1, n)", "int"], ["emb", "p(2, n+1)", "int"], ["emb", "ps(3, s)", "string"]]},
     {"quote": "d", "segs": [["dd"]]},
@@ -190,6 +201,13 @@ def run(ctx):
     for n in range(ctx.n(3, 4) + 1):
         for t in itertools.product(PIECES + RAW_EXTRA, repeat=n):
             seqs.append(("r", t))
+    for lit in NUM_LITS:
+        e = ("${%s}" % lit, "emb")
+        for q in ("d", "r"):
+            seqs.append((q, (e,)))
+            for pc in PIECES[:6]:
+                seqs.append((q, (pc, e)))
+                seqs.append((q, (e, pc)))
     nex = len(seqs)
     for _ in range(ctx.n(3000, 100000)):
         q = "d" if ctx.rng.below(3) else "r"
